@@ -166,3 +166,46 @@ pub fn debug_shows(debug: &str, text: &str) -> bool {
 	let quoted = format!("{:?}", text);
 	debug.contains(&quoted[1..quoted.len() - 1])
 }
+
+/// A `Hasher` that mixes in the BOUNDARIES of the calls it receives (as FxHash, ahash and other
+/// word-at-a-time hashers do): `write(&[a, b])` and `write_u8(a); write_u8(b)` give different
+/// results.  `Hash` must make equal values hash alike under every `Hasher`, hence make them
+/// issue the same sequence of calls.
+#[derive(Default)]
+pub struct CallSensitiveHasher(u64);
+
+impl CallSensitiveHasher {
+	fn mix(&mut self, tag: u64, x: u64) {
+		self.0 = (self.0.rotate_left(5) ^ tag ^ x).wrapping_mul(0x51_7c_c1_b7_27_22_0a_95);
+	}
+}
+
+impl std::hash::Hasher for CallSensitiveHasher {
+	fn finish(&self) -> u64 {
+		self.0
+	}
+	fn write(&mut self, bytes: &[u8]) {
+		self.mix(0x100, bytes.len() as u64);
+		for chunk in bytes.chunks(8) {
+			let mut w = [0u8; 8];
+			w[..chunk.len()].copy_from_slice(chunk);
+			self.mix(0x200, u64::from_le_bytes(w));
+		}
+	}
+	fn write_u8(&mut self, i: u8) {
+		self.mix(0x300, i as u64);
+	}
+	fn write_usize(&mut self, i: usize) {
+		self.mix(0x400, i as u64);
+	}
+}
+
+/// std's SipHash and the call-sensitive hasher, combined
+pub fn hash2<T: std::hash::Hash + ?Sized>(v: &T) -> u64 {
+	use std::hash::Hasher;
+	let mut a = std::collections::hash_map::DefaultHasher::new();
+	v.hash(&mut a);
+	let mut b = CallSensitiveHasher::default();
+	v.hash(&mut b);
+	a.finish() ^ b.finish().rotate_left(32)
+}
